@@ -101,10 +101,18 @@ type Path struct {
 
 	models  []*cachedModel
 	formatErrors     bool
+	smallInts        bool // FormatInt(symbolic) is interpreted (harness bounds the value)
 	exactSmallFloats bool // FormatFloat of integral |x| < 1000 is computed digit by digit (C16 decimal)
 	known   map[int]bool  // term id -> truth value implied syntactically by the path condition
+	subst   map[int]*smt.Term // term id -> constant it is known to equal
+	simpVer int
+	simpMemo map[int]*smt.Term
+	simpMemoVer int
 	KnownHits int
 	QCacheHits int
+	varIdx  map[int]*smt.Term
+	domains map[string]*domain
+	EnumHits int
 	varsOf  map[int][]int // term id -> sorted variable ids
 	Sliced  int
 	CacheHits int
@@ -153,6 +161,11 @@ func (p *Path) learn(c *smt.Term, val bool) {
 	}
 	p.known[c.ID] = val
 	p.known[p.C.Not(c).ID] = !val
+	p.simpVer++
+	if c.Op == smt.OEq && val {
+		p.learnEq(c.Args[0], c.Args[1])
+		p.learnEq(c.Args[1], c.Args[0])
+	}
 	switch c.Op {
 	case smt.ONot:
 		p.known[c.Args[0].ID] = !val
@@ -230,6 +243,26 @@ func (p *Path) choose(conds []*smt.Term) int {
 	return d
 }
 
+// chooseVerified is choose for alternatives already known to be feasible.
+func (p *Path) chooseVerified(conds []*smt.Term) int {
+	if p.pos < len(p.prefix) {
+		return p.choose(conds)
+	}
+	if len(conds) == 0 {
+		p.abortf("assume", "no feasible alternative")
+	}
+	for alt := 1; alt < len(conds); alt++ {
+		child := make([]int32, len(p.log)+1)
+		copy(child, p.log)
+		child[len(p.log)] = int32(alt)
+		p.pendingChildren = append(p.pendingChildren, child)
+	}
+	p.log = append(p.log, 0)
+	p.pos++
+	p.assume(conds[0])
+	return 0
+}
+
 // exhaustive reports whether conds is a {c, ¬c} pair.
 func (p *Path) exhaustive(conds []*smt.Term) bool {
 	if len(conds) != 2 || conds[0] == nil || conds[1] == nil {
@@ -247,6 +280,12 @@ func (p *Path) branch(v Value) bool {
 		if b, ok := v.BoolVal(); ok {
 			return b
 		}
+		// known facts are a deterministic function of the decisions taken so
+		// far, so simplification is the same during prefix replay
+		v = p.simplify(v)
+		if b, ok := v.BoolVal(); ok {
+			return b
+		}
 		return p.choose([]*smt.Term{v, p.C.Not(v)}) == 0
 	}
 	panic(fmt.Sprintf("branch on %T", v))
@@ -254,7 +293,11 @@ func (p *Path) branch(v Value) bool {
 
 // concretizeInt forks over the feasible values lo..hi of a symbolic integer.
 func (p *Path) concretizeRange(t *smt.Term, lo, hi int64) int64 {
+	t = p.simplify(t)
 	if v, ok := t.BVVal(); ok {
+		if t.Sort.W < 64 {
+			return int64(v)
+		}
 		return int64(v)
 	}
 	n := int(hi - lo + 1)
@@ -407,6 +450,10 @@ func (p *Path) termVars(t *smt.Term) []int {
 		case smt.OVar:
 			set[x.ID] = true
 		case smt.OApply:
+			if _, ok := smt.FuncImpl[x.Name]; ok {
+				// a fixed (evaluable) function does not relate its uses
+				break
+			}
 			// all applications of one function are related
 			h := 0
 			for _, c := range x.Name {
@@ -520,6 +567,15 @@ func (p *Path) feasible(cond *smt.Term) smt.Result {
 		return smt.Sat
 	}
 	sl := p.pcSlice(cond)
+	if v := p.smallDomain(cond, sl); v != nil {
+		if sat, ok := p.enumerate(v, cond, sl); ok {
+			p.EnumHits++
+			if sat {
+				return smt.Sat
+			}
+			return smt.Unsat
+		}
+	}
 	key := canonKey(cond, sl)
 	if v, ok := p.E.qcache.Load(key); ok {
 		p.QCacheHits++
@@ -541,14 +597,39 @@ func (p *Path) feasible(cond *smt.Term) smt.Result {
 	return r
 }
 
+// learnEq records x == k for a constant k, looking through extensions.
+func (p *Path) learnEq(x, k *smt.Term) {
+	if !k.IsConst() || x.IsConst() {
+		return
+	}
+	if p.subst == nil {
+		p.subst = map[int]*smt.Term{}
+	}
+	p.subst[x.ID] = k
+	if (x.Op == smt.OZext || x.Op == smt.OSext) && k.Sort.K == smt.KBV && k.Sort.W <= 64 {
+		in := x.Args[0]
+		p.learnEq(in, p.C.BV(k.U, in.Sort.W))
+	}
+}
+
 // simplify rewrites t under the syntactically known facts of this path.
 func (p *Path) simplify(t *smt.Term) *smt.Term {
-	if len(p.known) == 0 {
+	if len(p.known) == 0 && len(p.subst) == 0 {
 		return t
 	}
-	memo := map[int]*smt.Term{}
+	if t.IsConst() {
+		return t
+	}
+	if p.simpMemo == nil || p.simpMemoVer != p.simpVer {
+		p.simpMemo = map[int]*smt.Term{}
+		p.simpMemoVer = p.simpVer
+	}
+	memo := p.simpMemo
 	var walk func(x *smt.Term) *smt.Term
 	walk = func(x *smt.Term) *smt.Term {
+		if k, ok := p.subst[x.ID]; ok {
+			return k
+		}
 		if x.Leaf() {
 			if x.Sort.K == smt.KBool && x.Op == smt.OVar {
 				if v, ok := p.known[x.ID]; ok {
@@ -649,3 +730,208 @@ func canonKey(cond *smt.Term, sl []*smt.Term) string {
 	}
 	return sb.String()
 }
+
+// smallDomain returns the narrow variables (<= 16 bits in total) that cond
+// and its path-condition slice depend on, if that is all they depend on.
+func (p *Path) smallDomain(cond *smt.Term, sl []*smt.Term) []*smt.Term {
+	var vs []*smt.Term
+	bits := 0
+	check := func(t *smt.Term) bool {
+		for _, id := range p.termVars(t) {
+			if id < 0 {
+				return false
+			}
+			found := false
+			for _, v := range vs {
+				if v.ID == id {
+					found = true
+				}
+			}
+			if found {
+				continue
+			}
+			v := p.varByID(id)
+			if v == nil {
+				return false
+			}
+			w := 1
+			if v.Sort.K == smt.KBV {
+				w = v.Sort.W
+			} else if v.Sort.K != smt.KBool {
+				return false
+			}
+			bits += w
+			if bits > 16 {
+				return false
+			}
+			vs = append(vs, v)
+		}
+		return true
+	}
+	if !check(cond) {
+		return nil
+	}
+	for _, a := range sl {
+		if !check(a) {
+			return nil
+		}
+	}
+	if len(vs) == 0 {
+		return nil
+	}
+	return vs
+}
+
+func (p *Path) varByID(id int) *smt.Term {
+	if p.varIdx == nil {
+		p.varIdx = map[int]*smt.Term{}
+	}
+	if t, ok := p.varIdx[id]; ok {
+		return t
+	}
+	for _, v := range p.C.Vars {
+		p.varIdx[v.ID] = v
+	}
+	return p.varIdx[id]
+}
+
+type domain struct {
+	vs      []*smt.Term
+	widths  []uint
+	assigns []uint32 // packed assignments still consistent with the path condition
+	upTo    int      // asserted conjuncts already applied
+	bad     bool     // some conjunct could not be evaluated
+}
+
+func (d *domain) model(a uint32, m map[string]smt.ModelVal) {
+	x := a
+	for i, v := range d.vs {
+		m[v.Name] = smt.ModelVal{Sort: v.Sort, U: uint64(x & (1<<d.widths[i] - 1))}
+		x >>= d.widths[i]
+	}
+}
+
+// domainFor returns the surviving assignments of the narrow variables vs
+// under all asserted conjuncts that mention only those variables; it is kept
+// incrementally along the path.
+func (p *Path) domainFor(vs []*smt.Term) *domain {
+	key := ""
+	for _, v := range vs {
+		key += v.Name + ","
+	}
+	if p.domains == nil {
+		p.domains = map[string]*domain{}
+	}
+	d := p.domains[key]
+	if d == nil {
+		d = &domain{vs: vs}
+		total := uint(0)
+		for _, v := range vs {
+			w := uint(1)
+			if v.Sort.K == smt.KBV {
+				w = uint(v.Sort.W)
+			}
+			d.widths = append(d.widths, w)
+			total += w
+		}
+		d.assigns = make([]uint32, 1<<total)
+		for i := range d.assigns {
+			d.assigns[i] = uint32(i)
+		}
+		p.domains[key] = d
+	}
+	if d.bad {
+		return d
+	}
+	in := map[int]bool{}
+	for _, v := range vs {
+		in[v.ID] = true
+	}
+	asserted := p.S.Asserted()
+	m := map[string]smt.ModelVal{}
+	for ; d.upTo < len(asserted); d.upTo++ {
+		a := asserted[d.upTo]
+		tv := p.termVars(a)
+		if len(tv) == 0 {
+			continue
+		}
+		sub := true
+		for _, id := range tv {
+			if !in[id] {
+				sub = false
+				break
+			}
+		}
+		if !sub {
+			continue
+		}
+		keep := d.assigns[:0]
+		for _, as := range d.assigns {
+			d.model(as, m)
+			r, ok := smt.Eval(a, m, smt.NewMemo())
+			if !ok {
+				d.bad = true
+				return d
+			}
+			if r == 1 {
+				keep = append(keep, as)
+			}
+		}
+		d.assigns = keep
+	}
+	return d
+}
+
+// enumerate decides sat(slice ∧ cond) by evaluating cond on the surviving
+// assignments of the narrow variables; ok is false when evaluation fails.
+func (p *Path) enumerate(vs []*smt.Term, cond *smt.Term, sl []*smt.Term) (sat bool, ok bool) {
+	d := p.domainFor(vs)
+	if d.bad {
+		return false, false
+	}
+	m := map[string]smt.ModelVal{}
+	for _, as := range d.assigns {
+		d.model(as, m)
+		r, evok := smt.Eval(cond, m, smt.NewMemo())
+		if !evok {
+			return false, false
+		}
+		if r == 1 {
+			return true, true
+		}
+	}
+	return false, true
+}
+
+// enumValues lists the feasible values of t when it depends on narrow
+// variables only (nil otherwise).
+func (p *Path) enumValues(t *smt.Term) []uint64 {
+	sl := p.pcSlice(t)
+	vs := p.smallDomain(t, sl)
+	if vs == nil {
+		return nil
+	}
+	d := p.domainFor(vs)
+	if d.bad {
+		return nil
+	}
+	seen := map[uint64]bool{}
+	var out []uint64
+	m := map[string]smt.ModelVal{}
+	for _, as := range d.assigns {
+		d.model(as, m)
+		r, evok := smt.Eval(t, m, smt.NewMemo())
+		if !evok {
+			return nil
+		}
+		if !seen[r] {
+			seen[r] = true
+			out = append(out, r)
+			if len(out) > 256 {
+				return nil
+			}
+		}
+	}
+	return out
+}
+
